@@ -171,6 +171,38 @@ class Dumper:
         need(isinstance(c, Enum) and isinstance(c.value, str), "comparator %r" % (c,))
         return "(CRaw %s)" % cstr(c.value)
 
+    # ---- DDL
+    def colname(self, c):
+        need(type(c) is Q.Column and isinstance(c.name, str), "column object")
+        return cstr(c.name)
+
+    def create(self, x):
+        need(type(x).get_sql is Q.CreateQueryBuilder.get_sql, "CreateQueryBuilder.get_sql overridden")
+        known = {"_create_table", "_temporary", "_unlogged", "_as_select", "_columns", "_period_fors", "_with_system_versioning", "_primary_key", "_uniques",
+                 "_if_not_exists", "dialect"}
+        need(set(x.__dict__) <= known, "CreateQueryBuilder attributes %s" % sorted(set(x.__dict__) - known))
+        tb = x._create_table if x._create_table else None
+        need(tb is None or isinstance(tb, Q.Table), "create target")
+        cols = "KNil"
+        for c in reversed(list(x._columns)):
+            need(type(c) is Q.Column and isinstance(c.name, str), "column object")
+            need(c.type is None or isinstance(c.type, str), "column type")
+            need(c.nullable is None or isinstance(c.nullable, bool), "column nullable")
+            need(c.default is None or isinstance(c.default, T.Term), "column default")
+            need(c.default is None or bool(c.default) is True, "falsy default term")
+            cols = "(KCons %s %s %s %s %s)" % (cstr(c.name), copt(c.type), "None" if c.nullable is None else "(Some %s)" % cbool(c.nullable),
+                                               self.oterm(c.default), cols)
+        pfs = []
+        for pf in x._period_fors:
+            need(type(pf) is Q.PeriodFor and isinstance(pf.name, str), "period_for object")
+            pfs.append("(%s, %s, %s)" % (cstr(pf.name), self.colname(pf.start_column), self.colname(pf.end_column)))
+        uniqs = [clist([self.colname(c) for c in u]) for u in x._uniques]
+        pk = clist([self.colname(c) for c in (x._primary_key or [])])
+        asel = x._as_select if x._as_select is not None else None
+        need(asel is None or (isinstance(asel, Q.QueryBuilder) and bool(asel) is True), "as_select object")
+        return "(TCreate %s %s %s %s %s %s %s %s %s %s)" % (self.oterm(tb), cbool(x._temporary), cbool(x._unlogged), cbool(x._if_not_exists),
+                                                         cbool(x._with_system_versioning), cols, clist(pfs), clist(uniqs), pk, self.oterm(asel))
+
     # ---- terms
     def term(self, x):
         if isinstance(x, T.Interval):
@@ -199,6 +231,14 @@ class Dumper:
             return self.setop(x)
         if isinstance(x, Q.QueryBuilder):
             return "(TQuery %s)" % self.query(x)
+        if isinstance(x, Q.CreateQueryBuilder):
+            return self.create(x)
+        if isinstance(x, Q.DropQueryBuilder):
+            need(type(x).get_sql is Q.DropQueryBuilder.get_sql, "DropQueryBuilder.get_sql overridden")
+            need(set(x.__dict__) <= {"_drop_table", "_if_exists", "dialect"}, "DropQueryBuilder attributes %s" % sorted(x.__dict__))
+            tb = x._drop_table if x._drop_table else None
+            need(tb is None or isinstance(tb, Q.Table), "drop target")
+            return "(TDrop %s %s)" % (self.oterm(tb), cbool(x._if_exists))
         need(isinstance(x, T.Term), "not a term: %s" % type(x).__name__)
         g = type(x).get_sql
         al = self.alias(x)
